@@ -24,18 +24,21 @@ current view (size, focus) and compared:
   cursor-differs    canvas.cursor equal
   rows-differ       rows(size, focus) equal (sub-clause render-disagrees-with-rows:<Class> when the fresh
                     world's own render() and rows() disagree: C01's subject showing through the cache)
-  result-differs    keypress / mouse_event / selectable / pack return values equal
   one-world-raises  an op or render that raises in exactly one world
   cached-canvas-modified   every canvas A handed out still has the content/cursor snapshotted when it
                     was handed out (checked after every op, at every drop and at the end)
   finalized-canvas-mutable every Canvas/CompositeCanvas mutator called on a handed-out canvas raises
                     CanvasError (and leaves it unchanged)
 
-The only difference between the worlds is the availability of cached canvases, so any divergence is
-the cache being visible.  On a divergence the same-tree form of the statement is evaluated as well
-(A rendered once more with fetch/store patched out) and reported in the message.
+World B is the detector; a difference between the twins is then CONFIRMED on the same tree, which is the
+literal (and weaker) form of the statement: A's widget is rendered once more with fetch/store patched
+out and must differ from what it rendered with the cache available.  If A agrees with itself, the
+twins' states drifted apart earlier (a cache hit skipped a side effect of render()); the statement is
+silent about that and the history ends without verdict (counted: twins-diverged-without-stale-canvas).
 
 Deliberately weak readings:
+  * same-tree confirmation (above); differing return values of keypress / mouse_event / selectable / pack or
+    differing tree shapes between the twins are state divergence, not a verdict;
   * an op that raises the same exception *type* in both worlds ends the history (exceptions are
     C01/C07/C08's business); a history during which urwid emitted its own WidgetWarning is discarded;
   * pop-up coordinates and other canvas "coords" entries are not compared (content and cursor only);
@@ -784,10 +787,12 @@ class Run:
         (wa, ca, sa), (wb, cb, sb) = self.both(what, go)
         d = _first_diff(sa, sb)
         if d is not None:
-            raise Violation("content-differs", self.msg(f"{what} size {size} focus {focus}: {d}{self.same_tree(wa, size, focus, sa)}"))
+            self.same_tree(wa, size, focus, sa)
+            raise Violation("content-differs", self.msg(f"{what} size {size} focus {focus}: {d} [the same tree rendered without the cache differs too]"))
         if sa[3] != sb[3]:
+            self.same_tree(wa, size, focus, sa)
             raise Violation("cursor-differs", self.msg(
-                f"{what} size {size} focus {focus}: cursor cached {sa[3]!r} != fresh {sb[3]!r}{self.same_tree(wa, size, focus, sa)}"))
+                f"{what} size {size} focus {focus}: cursor cached {sa[3]!r} != fresh {sb[3]!r} [the same tree rendered without the cache differs too]"))
         if id(ca) not in self.held_ids:
             check_finalized(ca, wa, size, focus, what)
             s2 = snap(ca)
@@ -832,19 +837,37 @@ class Run:
             self.hold_canvas(keep_last, snap(keep_last), "latest root rendering")
 
     def same_tree(self, wa, size, focus, sa):
-        """diagnosis for the message: the strict same-tree comparison (A re-rendered without the cache)"""
+        """The twins differ.  Confirm on the SAME tree (the literal form of the statement, the weaker reading):
+        world A's widget is rendered once more with fetch/store patched out and compared with what it rendered
+        with the cache available.  If those agree, A's cached canvas is right for A's state and the twins'
+        states drifted apart earlier (a cache hit skipped a side effect of render(), e.g. Edit's
+        _shift_view_to_cursor flag read by a later mouse_event): the statement is silent about that, the
+        history ends without verdict.  Returns only if the same-tree comparison fails too."""
         try:
             with self.uncached:
                 s = snap(wa.render(size, focus))
         except Exception as e:  # noqa: BLE001
-            return f" [same tree rendered without the cache raises {type(e).__name__}]"
-        same = _first_diff(sa, s) is None and sa[3] == s[3]
-        return " [same tree rendered without the cache: " + ("equal to its cached rendering -> the twins' states diverged earlier]" if same else "differs too -> stale canvas]")
+            if not innermost_is_urwid(e):
+                raise
+            return
+        if _first_diff(sa, s) is None and sa[3] == s[3]:
+            _count("twins-diverged-without-stale-canvas")
+            raise _Stop("twins-diverged")
 
     def rows_differ(self, what, pick, size, focus, ra, rb):
         """rows() answered from a cached canvas differs from rows() computed afresh.  If the fresh world's
         own render has a different number of rows than its rows() reports, the disagreement is between
         render() and rows() (C01's subject) and merely shows through the cache: separate clause."""
+        wa = pick(self.A)
+        try:
+            with self.uncached:
+                same = wa.rows(size, focus) == ra
+        except Exception:  # noqa: BLE001
+            same = False
+        if same:
+            # weaker (same-tree) reading, see same_tree()
+            _count("twins-diverged-without-stale-canvas")
+            raise _Stop("twins-diverged")
         w = pick(self.B)
         clause = "rows-differ"
         extra = ""
@@ -905,7 +928,8 @@ class Run:
         na = live_nodes(self.A.root, self.mode)
         nb = live_nodes(self.B.root, self.mode)
         if [(type(w), m) for w, m, _d in na] != [(type(w), m) for w, m, _d in nb]:
-            raise Violation("structure-differs", self.msg("the twins' widget trees have different shapes"))
+            _count("twins-diverged-without-stale-canvas")
+            raise _Stop("twins-diverged")
         return na, nb
 
     def step(self, kind, op, ser):
@@ -927,13 +951,16 @@ class Run:
         if kind in ("render", "rows"):
             na, _nb = self.nodes_pair()
             if kind == "rows":
-                idx = [i for i, (_w, m, _d) in enumerate(na) if m in ("flow", "text")]
+                idx = [i for i, (w, m, _d) in enumerate(na) if m in ("flow", "text") and urwid.FLOW in w.sizing()]
                 if not idx:
                     return False
                 n = idx[op[1] % len(idx)]
             else:
                 n = op[1] % len(na)
             mode = na[n][1]
+            need = {"box": urwid.BOX, "scroll": urwid.BOX, "flow": urwid.FLOW, "text": urwid.FLOW, "fixed": urwid.FIXED}[mode]
+            if need not in na[n][0].sizing():
+                return False  # the slot's mode is the container's business; a direct call needs the widget's own support
             size = _size_for(mode, sizes[op[2] % len(sizes)])
             focus = bool(op[3])
             name = type(na[n][0]).__name__
@@ -955,14 +982,17 @@ class Run:
         if kind == "key":
             sa, sb = self.both("selectable()", lambda world: world.root.selectable())
             if sa != sb:
-                raise Violation("result-differs", self.msg(f"root.selectable(): cached {sa} != fresh {sb}"))
+                _count("twins-diverged-without-stale-canvas")
+                raise _Stop("twins-diverged")
             if not sa:
                 return False
             key = op[1]
             self.trace.append(f"{ser}:keypress {size} {key!r}")
             ra, rb = self.both(f"keypress({size}, {key!r})", lambda world: world.root.keypress(size, key))
             if ra != rb:
-                raise Violation("result-differs", self.msg(f"keypress({size}, {key!r}) returned {ra!r} (cached) != {rb!r} (fresh)"))
+                # the statement is about rendering; a different return value means the twins' states differ
+                _count("twins-diverged-without-stale-canvas")
+                raise _Stop("twins-diverged")
             _count("op:key-handled" if ra is None else "op:key-unhandled")
             return True
         if kind == "mouse":
@@ -977,7 +1007,8 @@ class Run:
             else:
                 ra, rb = self.both("pack(())", lambda world: tuple(world.root.pack((), True)))
                 if ra != rb:
-                    raise Violation("result-differs", self.msg(f"root.pack((), True): cached {ra} != fresh {rb}"))
+                    _count("twins-diverged-without-stale-canvas")
+                    raise _Stop("twins-diverged")
                 cols, rows = ra
             if cols < 1 or rows < 1:
                 return False
@@ -985,7 +1016,8 @@ class Run:
             self.trace.append(f"{ser}:mouse press {op[1]} at ({x},{y}) size {size}")
             ra, rb = self.both("mouse_event", lambda world: world.root.mouse_event(size, "mouse press", op[1], x, y, True))
             if bool(ra) != bool(rb):
-                raise Violation("result-differs", self.msg(f"mouse_event returned {ra!r} (cached) != {rb!r} (fresh)"))
+                _count("twins-diverged-without-stale-canvas")
+                raise _Stop("twins-diverged")
             _count("op:mouse-handled" if ra else "op:mouse-unhandled")
             return True
         if kind in ("mut", "again"):
@@ -1018,7 +1050,8 @@ class Run:
                 if "name" in info:
                     self.trace[-1] = f"{ser}:node {n} {info['name']}"
             if ra != rb:
-                raise Violation("structure-differs", self.msg(f"mutator applicability differs: {ra!r} vs {rb!r}"))
+                _count("twins-diverged-without-stale-canvas")
+                raise _Stop("twins-diverged")
             if ra is None:
                 self.trace.pop()
                 return False
